@@ -117,7 +117,58 @@ func (a *c19reads) mayRead(fo *types.Func) bool {
 
 func calleeOf(info *types.Info, call *ast.CallExpr) types.Object {
 	f := &flow.Func{Info: info}
-	return f.Callee(call)
+	return c19concrete(f.Callee(call))
+}
+
+// c19concrete: a call of a method of an interface declared in the module is a call of the method
+// of the single named type of the interface's package that implements it (an unexported
+// interface put in front of a dependency: `kvReader` in front of *cluster). Several
+// implementations, or none: the interface method itself (opaque).
+func c19concrete(o types.Object) types.Object {
+	fo, ok := o.(*types.Func)
+	if !ok || fo.Pkg() == nil || !strings.HasPrefix(fo.Pkg().Path(), Mod) {
+		return o
+	}
+	sig, ok := fo.Type().(*types.Signature)
+	if !ok || sig.Recv() == nil {
+		return o
+	}
+	it, ok := sig.Recv().Type().Underlying().(*types.Interface)
+	if !ok {
+		return o
+	}
+	var found *types.Func
+	n := 0
+	scope := fo.Pkg().Scope()
+	for _, name := range scope.Names() {
+		tn, ok := scope.Lookup(name).(*types.TypeName)
+		if !ok || tn.IsAlias() {
+			continue
+		}
+		named, ok := tn.Type().(*types.Named)
+		if !ok {
+			continue
+		}
+		if _, isIface := named.Underlying().(*types.Interface); isIface {
+			continue
+		}
+		for _, t := range []types.Type{named, types.NewPointer(named)} {
+			if !types.Implements(t, it) {
+				continue
+			}
+			if m, _, _ := types.LookupFieldOrMethod(t, true, fo.Pkg(), fo.Name()); m != nil {
+				if mf, ok := m.(*types.Func); ok {
+					found = mf
+					n++
+				}
+			}
+			break
+		}
+	}
+	if n == 1 {
+		return found
+	}
+	return o
 }
 
 // callCount: number of KV requests a call issues on its callee's successful paths.
@@ -128,7 +179,7 @@ func (a *c19reads) callCount(f *flow.Func, call *ast.CallExpr, depth int) int {
 		}
 		return a.uniform(a.summary(f.Lit(lit), depth+1), f.Name+" (function literal)", true)
 	}
-	fo, ok := f.Callee(call).(*types.Func)
+	fo, ok := c19concrete(f.Callee(call)).(*types.Func)
 	if !ok {
 		return 0
 	}
@@ -172,6 +223,36 @@ func c19success(f *flow.Func, ex *flow.Exit) flow.Val {
 	}
 	lastFld := f.Type.Results.List[len(f.Type.Results.List)-1]
 	if !c19isErr(f.Info.TypeOf(lastFld.Type)) {
+		// a single result struct carrying the error: look at the error field of the literal returned
+		if f.Type.Results.NumFields() == 1 && ex.Return != nil && len(ex.Return.Results) == 1 {
+			if ef := c19errField(f.Info.TypeOf(lastFld.Type)); ef != nil {
+				x := ast.Unparen(ex.Return.Results[0])
+				if u, ok := x.(*ast.UnaryExpr); ok {
+					x = ast.Unparen(u.X)
+				}
+				cl, ok := x.(*ast.CompositeLit)
+				if !ok {
+					return flow.Unknown
+				}
+				st, _ := f.Info.TypeOf(cl).Underlying().(*types.Struct)
+				for i, el := range cl.Elts {
+					val := el
+					var fld *types.Var
+					if kv, ok := el.(*ast.KeyValueExpr); ok {
+						if k, ok := kv.Key.(*ast.Ident); ok {
+							fld, _ = f.Info.Uses[k].(*types.Var)
+						}
+						val = kv.Value
+					} else if st != nil && i < st.NumFields() {
+						fld = st.Field(i)
+					}
+					if fld == ef {
+						return c19nilness(f, ex, val)
+					}
+				}
+				return flow.True // the error field is left at its zero value
+			}
+		}
 		return flow.True
 	}
 	var e ast.Expr
@@ -188,6 +269,35 @@ func c19success(f *flow.Func, ex *flow.Exit) flow.Val {
 	default:
 		e = ex.Return.Results[len(ex.Return.Results)-1]
 	}
+	return c19nilness(f, ex, e)
+}
+
+// c19errField: the single error-typed field of a struct type (nil if none or several).
+func c19errField(t types.Type) *types.Var {
+	if t == nil {
+		return nil
+	}
+	if p, ok := t.Underlying().(*types.Pointer); ok {
+		t = p.Elem()
+	}
+	st, ok := t.Underlying().(*types.Struct)
+	if !ok {
+		return nil
+	}
+	var out *types.Var
+	for i := 0; i < st.NumFields(); i++ {
+		if c19isErr(st.Field(i).Type()) {
+			if out != nil {
+				return nil
+			}
+			out = st.Field(i)
+		}
+	}
+	return out
+}
+
+// c19nilness: True = the error expression is nil on this exit (success), False = non-nil.
+func c19nilness(f *flow.Func, ex *flow.Exit, e ast.Expr) flow.Val {
 	e = ast.Unparen(e)
 	if tv, ok := f.Info.Types[e]; ok && tv.IsNil() {
 		return flow.True
@@ -437,6 +547,65 @@ func c19Pull(c *core.Ctx, r *c19run) {
 				}
 			}
 		}
+		sitePref := func(site *ast.CallExpr) bool {
+			isPref := a.withPrefix(pf.Info, site)
+			if cfo, ok := c19concrete(pf.Callee(site)).(*types.Func); ok && !c19isKV(cfo) {
+				if cd := a.declOf(cfo); cd != nil {
+					for _, g := range reach(flow.NewFunc(cd.pkg, cd.fd), 3) {
+						if a.withPrefix(g.Info, g.Body) {
+							isPref = true
+						}
+					}
+				}
+			}
+			return isPref
+		}
+		if flagKey == "" && nb == 0 {
+			// the boolean parameter was replaced by two functions: the caller chooses. This pull
+			// function is a prefix read or a single-key read as a whole, and the CALL of it must be
+			// reached with run's prefix flag set / not set.
+			nPref := 0
+			for _, site := range s.sites {
+				if sitePref(site) {
+					nPref++
+				}
+			}
+			runFlag := ""
+			if rfd, ok := r.f.Node.(*ast.FuncDecl); ok {
+				if id := c19defIdent(r.f, rfd.Type, r.prefObj); id != nil {
+					runFlag = r.f.VarKey(id)
+				}
+			}
+			if runFlag == "" {
+				ast.Inspect(ps.u.body, func(n ast.Node) bool {
+					if sel, ok := n.(*ast.SelectorExpr); ok && runFlag == "" {
+						if sl := ps.f.Info.Selections[sel]; sl != nil && sl.Obj() == types.Object(r.prefObj) {
+							runFlag = ps.f.VarKey(sel)
+						}
+					}
+					return true
+				})
+			}
+			if (nPref != 0 && nPref != len(s.sites)) || runFlag == "" || len(ps.states) == 0 {
+				c.Undecide("R-C19-2", pname+"|prefix read iff prefix flag", pos(c, d.fd), "the pull function has no prefix flag and the caller's choice cannot be followed")
+				continue
+			}
+			isPref := nPref > 0
+			okc := true
+			var bst *flow.State
+			whyc := ""
+			for _, st := range ps.states {
+				switch {
+				case isPref && !st.Is(runFlag, flow.True):
+					okc, bst, whyc = false, st, "the prefix pull is called without run's prefix flag being set: a single-key syncer reads (and compares) a whole prefix — spurious re-deliveries of an unchanged value"
+				case !isPref && !st.Is(runFlag, flow.False):
+					okc, bst, whyc = false, st, "the single-key pull is called with run's prefix flag set: a prefix syncer only ever sees the one key equal to the prefix — changes under the prefix are never delivered"
+				}
+			}
+			c.Check(okc, "R-C19-2", pname+"|prefix read iff prefix flag", pos(c, ps.call),
+				sprintf("a %s read as a whole, called in %d state(s) all with run's prefix flag %v", map[bool]string{true: "prefix", false: "single-key"}[isPref], len(ps.states), isPref), whyc, witness(bst)...)
+			continue
+		}
 		if flagKey == "" {
 			c.Undecide("R-C19-2", pname+"|prefix read iff prefix flag", pos(c, d.fd), "pull has neither exactly one bool parameter nor a (key, prefix) parameter object")
 			continue
@@ -445,17 +614,7 @@ func c19Pull(c *core.Ctx, r *c19run) {
 		var badSt *flow.State
 		why = ""
 		for _, site := range s.sites {
-			isPref := a.withPrefix(pf.Info, site)
-			if cfo, ok := pf.Callee(site).(*types.Func); ok && !c19isKV(cfo) {
-				if cd := a.declOf(cfo); cd != nil {
-					// the option may sit in a helper of the read (e.g. a rangePrefix method)
-					for _, g := range reach(flow.NewFunc(cd.pkg, cd.fd), 3) {
-						if a.withPrefix(g.Info, g.Body) {
-							isPref = true
-						}
-					}
-				}
-			}
+			isPref := sitePref(site)
 			for _, st := range s.res.At[site] {
 				switch {
 				case isPref && !st.Is(flagKey, flow.True):
